@@ -132,6 +132,58 @@ func compare(want *node, got *hclsyntax.Body, path string) string {
 	return ""
 }
 
+// contentView applies, at every nesting level, the schema that the written body implies (its
+// attribute names; its block types with the number of labels written) and compares what
+// Body.Content returns with the written tree. A body that uses one block type with different label
+// counts has no such schema and is skipped.
+func contentView(want *node, body hcl.Body, path string) string {
+	schema := &hcl.BodySchema{}
+	seenA := map[string]bool{}
+	for _, a := range want.attrs {
+		if !seenA[a] {
+			seenA[a] = true
+			schema.Attributes = append(schema.Attributes, hcl.AttributeSchema{Name: a})
+		}
+	}
+	nl := map[string]int{}
+	for _, b := range want.blocks {
+		if prev, ok := nl[b.typ]; ok {
+			if prev != len(b.labels) {
+				return ""
+			}
+			continue
+		}
+		nl[b.typ] = len(b.labels)
+		names := []string{"l1", "l2", "l3", "l4"}[:len(b.labels)]
+		schema.Blocks = append(schema.Blocks, hcl.BlockHeaderSchema{Type: b.typ, LabelNames: names})
+	}
+	content, diags := body.Content(schema)
+	if diags.HasErrors() {
+		return fmt.Sprintf("%s: Content with the written body's own schema reports: %s", path, diags.Error())
+	}
+	if len(content.Attributes) != len(seenA) {
+		return fmt.Sprintf("%s: Content returns %d attributes, written %d", path, len(content.Attributes), len(seenA))
+	}
+	for a := range seenA {
+		if content.Attributes[a] == nil {
+			return fmt.Sprintf("%s: Content lacks attribute %q", path, a)
+		}
+	}
+	if len(content.Blocks) != len(want.blocks) {
+		return fmt.Sprintf("%s: Content returns %d blocks, written %d", path, len(content.Blocks), len(want.blocks))
+	}
+	for i, wb := range want.blocks {
+		gb := content.Blocks[i]
+		if gb.Type != wb.typ || strings.Join(gb.Labels, "\x00") != strings.Join(wb.labels, "\x00") {
+			return fmt.Sprintf("%s: Content block %d is %s %q, written %s %q", path, i, gb.Type, gb.Labels, wb.typ, wb.labels)
+		}
+		if m := contentView(wb.body, gb.Body, fmt.Sprintf("%s/%s[%d]", path, wb.typ, i)); m != "" {
+			return m
+		}
+	}
+	return ""
+}
+
 func Handle(c *core.Check, st core.State) {
 	if !tla.Bool(st.Vars["closed"]) {
 		return
@@ -192,6 +244,11 @@ func Handle(c *core.Check, st core.State) {
 	}
 	if m := compare(want, f.Body.(*hclsyntax.Body), "root"); m != "" {
 		c.Violation("structure-differs", fmt.Sprintf("%q: %s", src, m), vec)
+		return
+	}
+	// the schema-driven view (hcl.Body.Content with the schema the written tree implies) exposes the same items
+	if m := contentView(want, f.Body, "root"); m != "" {
+		c.Violation("content-view-differs", fmt.Sprintf("%q: %s", src, m), vec)
 		return
 	}
 	// the generic hcl.Body view agrees too (JustAttributes on a block-free body)
